@@ -78,8 +78,10 @@ def many_component_cases(draw, tier):
     the exact algorithm itself is not run at this size: without cplex it solves ONE model over all the elements, which
     can take minutes)"""
     from vlib import configs as cfgs
-    name = draw(st.sampled_from(["parcons_default", "enum_parcons", "parcons_kwik_b2", "parcons_copeland_b3", "parcons_b2",
-                                 "parcons_bioco_b0", "bioconsert", "kwiksort", "copeland"]))
+    # (only configurations whose exact solving is bounded to components of at most 3 elements: under some schemes the
+    # blocks merge into one component of ten elements and more, which the cplex-less exact algorithm solves in minutes)
+    name = draw(st.sampled_from(["parcons_copeland_b3", "parcons_copeland_b3", "parcons_kwik_b2", "parcons_b2",
+                                 "parcons_bioco_b0", "enum_parcons_copeland_b2", "bioconsert", "kwiksort", "copeland"]))
     ds = draw(gen.datasets(max_n=15, min_n=9, max_m=5, shapes=["block_cyclic"], kinds=("dense", "str", "mixedstr", "negs")))
     scheme = draw(st.one_of(gen.tie_averse_schemes(), gen.tie_averse_schemes(), gen.preset_multiples(), gen.free_schemes()))
     return {"config": name, "env": "absent", "scheme": scheme, "dataset": ds, "at_most_one": True,
